@@ -26,10 +26,10 @@ CHECK = {
   'bounds': {
     'quick': ('wide Int keys 9 and 6x2, 7 under ASan; mixed key/value sizes (Int->Blob20 9 and 6x2 keys, 8 under ASan; Int->Probe 8; Probe->Int 8, 5x2 under ASan; String->Probe 8; Probe->Blob20 6x2); to fixpoint: Int keys 11-key universe x 1 value (3.99e4 concrete trees) and 7 keys x 2 values (gcc), 9 keys and 5x2 under ASan+UBSan; '
               'String keys 10 and 6x2, 8 under ASan, 4x2 with the stored-key alias operation under ASan; Probe keys+values with the ledger 10 and 6x2, 8 and 5x2 under ASan; '
-              'ladders N in {1,2,3,7,16,33,100,300,1000,4000,10000} Int, {100,1000,4000} String, {1,2,3,16,100,1000} under ASan, 16 order pairs each'),
+              'ladders N in {1,2,3,7,16,33,100,300,1000,4000,10000} Int, {100,1000,4000} String, {1,2,3,16,100,1000} under ASan, 16 order pairs each; *-sfx1 instances: the same alphabet with the last operation of the history in the state key (small universes)'),
     'thorough': ('wide Int keys 12 (all of them) and 8x2, 10 under ASan; mixed key/value sizes (Int->Blob20 12 and 8x2, 11 under ASan; Int->Probe 11; Probe->Int 11, 7x2 under ASan; String->Probe 11, 7x2 under ASan; Probe->Blob20 8x2); to fixpoint: Int keys 14-key universe x 1 value (8.9e5 concrete trees, deepest shortest history 26; cut after 520 s on an overloaded machine, then exhaustive:false) and 13-key universe (3.1e5) and 9 keys x 2 values (4.2e5), 12 keys and 8x2 under ASan+UBSan; '
                  'String keys 13 and 9x2, 11 under ASan, 6x2 with the alias operation under ASan; Probe keys+values 13 and 9x2, 11 and 6x2 under ASan; '
-                 'ladders to 10000 keys Int and String (21 / 6 sizes), to 4000 Int and 1000 String under ASan'),
+                 'ladders to 10000 keys Int and String (21 / 6 sizes), to 4000 Int and 1000 String under ASan; *-sfx1 / *-sfx2 instances: the last one / two operations of the history in the state key'),
   },
   'assumptions': [
     'keys outside the universe are represented by it: the tree depends on keys only through cmp, and Int/String/Probe keys 0..N-1 give every order type of N keys',
@@ -40,6 +40,8 @@ CHECK = {
   ],
   'instances': {
     'quick': [
+      # history suffix in the state key (lib/vf_bfs.h suffix=K): the last K operations keep histories apart that end in one visible state
+      T('int8-sfx1', 'base', 'keys=int', 'nkeys=8', 'nvals=1', 'suffix=1'), T('int5x2-sfx1', 'base', 'keys=int', 'nkeys=5', 'nvals=2', 'alias=1', 'suffix=1'),
       T('int11', 'base', 'keys=int', 'nkeys=11', 'nvals=1'),
       T('int7x2', 'base', 'keys=int', 'nkeys=7', 'nvals=2', 'alias=1'),
       T('int9-asan', 'asan', 'keys=int', 'nkeys=9', 'nvals=1'),
@@ -83,6 +85,8 @@ CHECK = {
       T('ladder-asan', 'asan', 'mode=ladder', 'keys=int', 'sizes=1,2,3,16,100,1000'),
     ],
     'thorough': [
+      # history suffix in the state key (lib/vf_bfs.h suffix=K): the last K operations keep histories apart that end in one visible state
+      T('int10-sfx1', 'base', 'keys=int', 'nkeys=10', 'nvals=1', 'suffix=1'), T('int9-sfx2', 'base', 'keys=int', 'nkeys=9', 'nvals=1', 'suffix=2'), T('int-blob6x2-cross-sfx1', 'base', 'keys=int', 'vals=blob', 'nkeys=6', 'nvals=2', 'alias=1', 'cross=1', 'table=1', 'suffix=1'), T('str6x2-sfx1', 'base', 'keys=str', 'nkeys=6', 'nvals=2', 'alias=1', 'suffix=1'),
       # 14 keys needs ~4.5-6.5 min of one core on a quiet machine; deadline=520 ends it cleanly (exhaustive:false, position noted) on an overloaded one,
       # and the 13-key universe is always run to its fixpoint
       T('int14', 'base', 'keys=int', 'nkeys=14', 'nvals=1', 'deadline=520'),
